@@ -672,8 +672,8 @@ def c_collect():
         ("arguments", lambda f: next((n.targets[0].id for n in ast.walk(f) if isinstance(n, ast.Assign) and isinstance(n.value, ast.Dict)
                                       and isinstance(n.targets[0], ast.Name) and "'loc'" in [ast.unparse(k) for k in n.value.keys]), None)),
     ])
-    loops = [n for n in fn.body if isinstance(n, ast.For)]
-    if len(loops) != 1 or ast.unparse(loops[0].iter) != "space.agents" or ast.unparse(loops[0].target) != "agent":
+    loops = [n for n in fn.body if isinstance(n, ast.For) and ast.unparse(n.iter) == "space.agents"]
+    if len(loops) != 1 or ast.unparse(loops[0].target) != "agent":
         raise T.Broken("expected one loop `for agent in space.agents`")
     body = loops[0].body
     # portray = dict(agent_portrayal(agent))  (a copy: the caller's dict must not be modified)
